@@ -244,6 +244,7 @@ func run(r *core.Run) {
 	runIdents(r)
 	runExprs(r)
 	runStatements(r)
+	runForms(r)
 }
 
 // ---------- literal codec ----------
@@ -437,6 +438,14 @@ var corpus = []struct{ dialect, stmt string }{
 	{"pg", "select a from t where (a or b) is null"},
 	{"pg", "select a from t where b between (b = 1 or c = 2) and 5"},
 	{"pg", "select a from t order by null desc"},
+	// fixed (repo-patches/70): the length of VARCHAR(n) in CAST / CONVERT was dropped by the grammar
+	{"my", "select cast(a as varchar(10)) from t"},
+	{"pg", "select convert(a, varchar(10)) from t"},
+	// known (pg_query deparser): an AND/OR/NOT as the argument of a CAST
+	{"pg", "select cast(not a as int4) from t"},
+	// the seeded change C13-3: multi-table DELETE with RETURNING
+	{"pg", "delete from t using u where t.a = u.a returning t.a"},
+	{"my", "delete t from t join u on t.a = u.a where u.b = 1 returning t.a"},
 }
 
 func runStatements(r *core.Run) {
